@@ -138,7 +138,7 @@ func (r *runner) runShard(idx int, shard string) (*core.Result, []crash, error) 
 		ctx, cancel := context.WithDeadline(context.Background(), r.deadline.Add(90*time.Second))
 		cmd := exec.CommandContext(ctx, r.worker, args...)
 		cmd.Dir = emptyDir(r.worker)
-		cmd.Env = append(append(goEnv(), "GOMAXPROCS=1", "GORACE=halt_on_error=1 exitcode=66"), r.extraEnv...)
+		cmd.Env = append(append(goEnv(), "GOMAXPROCS=1", raceEnv(r.worker)), r.extraEnv...)
 		var out, errb bytes.Buffer
 		cmd.Stdout, cmd.Stderr = &out, &errb
 		err := cmd.Run()
@@ -206,9 +206,10 @@ func main() {
 	if err := os.MkdirAll(scratch, 0o755); err != nil {
 		internal("%v", err)
 	}
-	defer os.RemoveAll(scratch)
 	code := check(prop, tier, seed, scratch, t0)
-	os.RemoveAll(scratch)
+	if os.Getenv("VERIF_KEEP") == "" {
+		os.RemoveAll(scratch)
+	}
 	os.Exit(code)
 }
 
@@ -374,6 +375,8 @@ func check(prop, tier string, seed int64, scratch string, t0 time.Time) int {
 	var violationLines []string
 	for _, k := range keys {
 		fs := groups[k]
+		// the simplest witness of the group is the one confirmed and written out
+		sort.SliceStable(fs, func(i, j int) bool { return len(fs[i].Input) < len(fs[j].Input) })
 		f := fs[0]
 		ki := -1
 		for i, kn := range kf.Findings {
@@ -399,8 +402,16 @@ func check(prop, tier string, seed int64, scratch string, t0 time.Time) int {
 		// a new failure: confirm by replay in fresh processes
 		path := writeReplay(prop, &f)
 		okN, badN, detail := confirm(worker, extraEnv, prop, tier, path, f.Fingerprint, 5)
+		// A race report is proof by itself (the detector has no false positives), but whether the
+		// detector still remembers the earlier access when the later one happens depends on its
+		// bounded shadow memory: one reproduction out of five is required there, five of five
+		// everywhere else.
+		need := 5
+		if strings.Contains(f.Fingerprint, "data-race") || strings.HasPrefix(f.Fingerprint, "stress:") {
+			need = 1
+		}
 		switch {
-		case okN == 5:
+		case okN >= need:
 			violations += int(agg.FailCounts[k])
 			violationLines = append(violationLines, fmt.Sprintf("VIOLATION property=%s replay=%s", prop, path))
 			fmt.Fprintf(os.Stderr, "violation: classes=%v fingerprint=%s count=%d\n  input=%.600s\n  expected=%.600s\n  observed=%.600s\n", f.Classes, f.Fingerprint, agg.FailCounts[k], f.Input, f.Expected, f.Observed)
@@ -505,6 +516,14 @@ func emptyDir(worker string) string {
 	return d
 }
 
+// raceEnv makes a race-enabled worker log race reports to files next to the binary and carry on, so
+// that the harness can attribute each report to the schedule that produced it.
+func raceEnv(worker string) string {
+	d := filepath.Join(filepath.Dir(worker), "race")
+	os.MkdirAll(d, 0o755)
+	return "GORACE=halt_on_error=0 exitcode=0 log_path=" + filepath.Join(d, "r")
+}
+
 func round(f float64) float64 { return float64(int64(f*100)) / 100 }
 
 func oneLine(s string, n int) string {
@@ -544,7 +563,7 @@ func confirm(worker string, extraEnv []string, prop, tier, path, fingerprint str
 		ctx, cancel := context.WithTimeout(context.Background(), 90*time.Second)
 		cmd := exec.CommandContext(ctx, worker, "replay", prop, tier, path)
 		cmd.Dir = emptyDir(worker)
-		cmd.Env = append(append(goEnv(), "GOMAXPROCS=1", "GORACE=halt_on_error=1 exitcode=66"), extraEnv...)
+		cmd.Env = append(append(goEnv(), "GOMAXPROCS=1", raceEnv(worker)), extraEnv...)
 		var out, errb bytes.Buffer
 		cmd.Stdout, cmd.Stderr = &out, &errb
 		err := cmd.Run()
